@@ -67,6 +67,10 @@ CHECKS = {
    "per record type of the codec corpus and several values: EVERY Write call index of EncodeBebop fails (persistent generic error, io.ErrShortWrite with partial write, io.EOF, and a fail-once writer) and EVERY byte offset of DecodeBebop's input is followed by a failing reader (generic, timeout-like, io.ErrUnexpectedEOF); per fault point: non-nil error, no panic / death / runaway / CPU budget, bounded allocation; fault-free EncodeBebop == MarshalBebop",
    "exhaustive over fault points per value (7e5 per quick run), sampled over values and schemas",
    "runtime monitoring: exhaustive I/O fault injection through metering reader/writer wrappers"),
+ "C04": ("exploration",
+   "6 schema-version pairs (added fields of several kinds, un-deprecated fields, both) x 13 nesting contexts of the evolved message; both versions are generated and compiled, v2-encoded values (added fields present/absent) are decoded by v1's byte and stream decoders (also chunked); decoded value must equal the harness's restriction of the v2 value to v1's fields, siblings intact, stream position exact",
+   "held on ~7500 (pair, context, value, decoder) tuples per quick run; evolution limited to the two operations the statement names; two contexts (struct containing the evolved message, nested again) are recorded known findings on the byte path",
+   "runtime monitoring: cross-version differential oracle with an independent restriction model"),
 }
 DESIGN = {i: "DESIGN.md section 4, %s" % i for i in CHECKS}
 
